@@ -2,7 +2,7 @@
    Statements only; proofs are in Proofs/ContStoreProofs.v and Proofs/LogProofs.v. *)
 From RipV Require Import Base.Prelude Model.Frames Model.Log Model.ContStore Model.LogBytes
   Model.CapEffects Model.SidecarInv Proofs.LogProofs Proofs.ContStoreProofs Proofs.LogBytesProofs
-  Proofs.CapEffectsProofs Proofs.SidecarInvProofs Gen.LogOpen Gen.Effects.
+  Proofs.CapEffectsProofs Proofs.SidecarInvProofs Model.C02Cases Proofs.C02CasesProofs Gen.LogOpen Gen.Effects.
 
 (* one micro-step of any actor running ANY program (well-formed or not) in ANY state leaves the
    log as it was or adds exactly one frame at the end *)
@@ -195,3 +195,53 @@ Example c02_demo_nontrivial :
   /\ silent CapAuto f = false
   /\ map seq (s_log (exec (cap_prog CapPost 77 f) st)) = [0].
 Proof. exact c02_demo. Qed.
+
+(* ---------- second round (builder log02b) ----------
+   T1: every method of impl ContinuityStore that a READ-ONLY capability shares with a capability that may
+   append (reachable from both in the regenerated call graph) is listed in Gen/Effects.v with its
+   "can reach self.event_log.append" bit; the list is not empty and no shared helper can append.
+   (Seed C02-5 put an append into find_inflight_compaction_job_id_best_effort_v1, which
+   compaction_status_v1 shares with the scheduler.) *)
+Theorem c02_shared_helpers_cannot_append :
+  gen_shared_helpers <> [] /\ forall n b, In (n, b) gen_shared_helpers -> b = false.
+Proof. exact (shared_helpers_rows gen_shared_helpers gen_shared_helpers_ok). Qed.
+Print Assumptions c02_shared_helpers_cannot_append.
+
+(* Histories of the correspondence, second round (Model/C02Cases.v, call2): capability calls, faults on
+   the full sidecar, faults on ONE derived cache file, garbage lines appended to / inserted into the
+   full sidecar, restarts, and ageing (every timestamp moved, store re-opened).  For every such
+   history and every point in it: the log at that point is a prefix of the log at the end ... *)
+Theorem c02_prefix_extended_histories : forall (ks1 ks2 : list call2),
+  exists fs, s_log (snd (run_calls2 empty_state (ks1 ++ ks2)))
+             = s_log (snd (run_calls2 empty_state ks1)) ++ fs.
+Proof. exact history2_prefix. Qed.
+Print Assumptions c02_prefix_extended_histories.
+
+(* ... a fault of any of these kinds, a restart and the passing of time leave the log as it is, in
+   every state ... *)
+Theorem c02_faults_garbage_and_time_keep_the_log : forall (st : state) (k : call2),
+  is_fault2 k = true -> s_log (do_call2 st k) = s_log st.
+Proof. exact fault2_keeps_log. Qed.
+Print Assumptions c02_faults_garbage_and_time_keep_the_log.
+
+(* ... an invocation the property names as silent (read-only; dry run; stride 0; nothing planned) adds
+   nothing in whatever state such a history has led to ... *)
+Theorem c02_silent_invocation_anywhere_in_a_history : forall (ks : list call2) (cp : cap) (th : nat) (f : cfacts),
+  silent cp f = true ->
+  s_log (do_call2 (snd (run_calls2 empty_state ks)) (K (KCap cp th f))) = s_log (snd (run_calls2 empty_state ks)).
+Proof. exact (fun ks cp th f H => silent_call2_keeps_log (snd (run_calls2 empty_state ks)) cp th f H). Qed.
+Print Assumptions c02_silent_invocation_anywhere_in_a_history.
+
+(* ... and a sidecar still exists only for ids that a frame in the log carries *)
+Theorem c02_sidecars_only_for_ids_in_the_log_extended_histories : forall (ks : list call2) (c : N),
+  s_side (snd (run_calls2 empty_state ks)) c <> None ->
+  exists f, In f (s_log (snd (run_calls2 empty_state ks))) /\ sid f = c.
+Proof. exact sidecars_named_any_history2. Qed.
+Print Assumptions c02_sidecars_only_for_ids_in_the_log_extended_histories.
+
+(* non-vacuity: the settings of seeds C02-6 / C02-5 as a model history (2 messages, auto creates a
+   checkpoint, comp sidecar torn, garbage in the full sidecar, an hour passes, auto with nothing to
+   do, status): frames in the log after each step *)
+Example c02_extended_history_demo :
+  fst (run_calls2 empty_state demo2_history) = [1; 2; 3; 6; 6; 6; 6; 6; 6].
+Proof. exact demo2. Qed.
